@@ -13,8 +13,9 @@ import (
 
 func init() {
 	core.Register(&core.Prop{
-		ID:    "C03",
-		Level: "exploration",
+		ID:          "C03",
+		Level:       "exploration",
+		CaseTimeout: 45e9, // a case of this check takes milliseconds; one that does not end is cut after 45 s
 		Rule: "one replica driven in lock-step with the plain structure (int32, map, slice, JSON tree): seeded sequences of valid calls, invalid calls (index -1/size/size+1, count 0/over-range, empty key, nil value top-level / in a batch / nested, typed nil pointer, wrong container kind, call on an element, call on a deleted or replaced child document, remove of a missing key), reads, committed and aborted transactions (an aborted one must leave the plain view, the reads and the pending operations exactly as before); after every call: error-ness per the outcome table, return value, ToJSON, Size, reads, number of pending operations; panics are caught and reported with the call; " +
 			"non-trivial = the sequence contains an invalid call followed by a valid one, or reaches >=5 distinct API methods; distinct = hash of the call script",
 		Assumptions: []string{
